@@ -377,9 +377,16 @@ class Gen:
 
 # ----------------------------------------------------------------------------- property oracle on the real code
 
+class _Bare:
+    """an address that is not (yet) bound to a collection, seen through the same oracle"""
+    def __init__(self, a):
+        self.a = a
+        self.array = np.zeros((int(np.sum(a.length_array)),))
+
+
 def oracle_state(impl, report_fail):
     """C16's first sentence, checked directly on every live object with distinct names."""
-    for kind, objs in (("V", impl.vars), ("T", impl.tvs)):
+    for kind, objs in (("V", impl.vars), ("T", impl.tvs), ("A", [_Bare(a) for a in impl.addrs])):
         for i, o in enumerate(objs):
             a = o.a
             if len(set(a.object_list)) != len(a.object_list):
@@ -545,10 +552,16 @@ class Runner:
         self.seqs.append((tag, []))
         self.lines.append("c16 reset"); self.expect.append("ok unit"); self.meta.append((len(self.seqs) - 1, "reset"))
 
-    def do(self, op):
+    def do(self, op, observe=True):
         si = len(self.seqs) - 1
         self.seqs[si][1].append(op)
         w = op.split()
+        if not observe:
+            # the op is carried out on both sides and its answer compared, but no state is read: what an op leaves to be computed
+            # later (a table rebuilt on the next read, a cached layout) is still pending when the next op runs
+            ans = self.impl.step(w)
+            self.lines.append("c16 " + " ".join(t for t in w if not t.startswith("@"))); self.expect.append(ans); self.meta.append((si, op))
+            return
         before = snapshot(self.impl)
         ans = self.impl.step(w)
         self.lines.append("c16 " + " ".join(t for t in w if not t.startswith("@"))); self.expect.append(ans); self.meta.append((si, op))
@@ -578,6 +591,35 @@ def run_all(seed, nseq, maxops, mal_frac, corpus):
         R.begin(tag)
         for op in ops:
             R.do(op)
+    # sequences without intermediate observation: layouts are built and resized, then combined / aliased / bound, and only then read
+    rb = np.random.default_rng([seed, 1616])
+    for s in range(max(20, nseq // 6)):
+        R.begin("unobserved")
+        names = [str(x) for x in rb.permutation(NAMES)]
+        na, nb = int(rb.integers(1, 4)), int(rb.integers(1, 4))
+        ops, sizes = [], {0: {}, 1: {}}
+        for aid, nn in ((0, names[:na]), (1, names[na:na + nb])):
+            ops.append("anew")
+            for n in nn:
+                sizes[aid][n] = int(rb.integers(1, 6)); ops.append(f"aadd {aid} {n} {sizes[aid][n]}")
+        for _ in range(int(rb.integers(1, 4))):
+            aid = int(rb.integers(0, 2))
+            n = str(rb.choice(list(sizes[aid])))
+            sizes[aid][n] = int(rb.integers(1, 6)); ops.append(f"aupd {aid} {n} {sizes[aid][n]}")
+        kind = int(rb.integers(0, 4))
+        if kind == 0:
+            ops.append("acomb 0 1")
+        elif kind == 1:
+            ops += ["acomb 1 0", "aalias 2 0"]
+        elif kind == 2:
+            ops += ["aalias 0 0", "acomb 2 1"]
+        else:
+            ops += ["vnew 0 " + fl([float(x) for x in range(1, 1 + sum(sizes[0].values()))]),
+                    "vnew 1 " + fl([float(-x) for x in range(1, 1 + sum(sizes[1].values()))]), "vcomb 0 1"]
+        for op in ops:
+            R.do(op, observe=False)
+        hist["unobserved:" + ["acomb", "acomb+alias", "alias+acomb", "vcomb"][kind]] = hist.get("unobserved:" + ["acomb", "acomb+alias", "alias+acomb", "vcomb"][kind], 0) + 1
+        R.do(f"aget 0 {names[0]}")           # the first read: answer, full state dump and the oracles
     rng = np.random.default_rng(seed)
     for s in range(nseq):
         mal = bool(rng.random() < mal_frac)
